@@ -123,6 +123,29 @@ TABLE.update({
  "C17-J": ("io/json", "rm -f io/json/c17j_runner_demo_test.go && go test -vet=off -count=1 -run TestC17J ./io/json/"),
 })
 
+TABLE.update({
+ "C01-K": ("data/cdata", "go test -vet=off -count=1 -run TestC01K ./data/cdata/"),
+ "C01-L": ("data", "go test -vet=off -count=1 -run TestC01L ./data/"),
+ "C02-K": ("data", "go test -vet=off -count=1 -run TestC02K ./data/"),
+ "C02-L": ("data", "go test -vet=off -count=1 -run TestC02L ./data/"),
+ "C03-K": ("data/cdata", "go test -vet=off -count=1 -run TestC03K ./data/cdata/"),
+ "C03-L": ("data/cdata", "go test -vet=off -count=1 -run TestC03L ./data/cdata/"),
+ "C04-K": ("models", "go test -vet=off -count=1 -run TestC04K ./models/"),
+ "C04-L": ("models", "go test -vet=off -count=1 -run TestC04L ./models/"),
+ "C05-K": ("models", "go test -vet=off -count=1 -run TestC05K ./models/"),
+ "C05-L": ("cmd/ow-sim", "go1.26.8 test -modfile=%(stub)s -vet=off -count=1 -run TestC05L ./cmd/ow-sim/"),
+ "C06-K": ("models/routing", "go test -vet=off -count=1 -run TestC06K ./models/routing/"),
+ "C06-L": ("cmd/ow-sim", "go1.26.8 test -modfile=%(stub)s -vet=off -count=1 -run TestC06L ./cmd/ow-sim/"),
+ "C07-K": ("cmd/ow-sim", "go1.26.8 test -modfile=%(stub)s -vet=off -count=1 -run TestC07K ./cmd/ow-sim/"),
+ "C07-L": ("cmd/ow-sim", "go1.26.8 test -modfile=%(stub)s -vet=off -count=1 -run TestC07L ./cmd/ow-sim/"),
+ "C08-K": ("io", "go1.26.8 test -modfile=%(stub)s -vet=off -count=1 -run TestC08KDemo ./io/"),
+ "C08-L": ("io", "go1.26.8 test -modfile=%(stub)s -vet=off -count=1 -run TestC08LDemo ./io/"),
+ "C14-K": ("models/rr", "go test -vet=off -count=1 -run TestC14KDemo ./models/rr/"),
+ "C14-L": ("models/routing", "go test -vet=off -count=1 -run TestC14LDemo ./models/routing/"),
+ "C17-K": ("sim", "go test -vet=off -count=1 -run TestC17K ./sim/"),
+ "C17-L": ("sim", "go test -vet=off -count=1 -run TestC17L ./sim/"),
+})
+
 def sh(cmd, cwd=WT):
     r = subprocess.run(cmd, shell=True, cwd=cwd, env=ENV, capture_output=True, text=True)
     return r.returncode, (r.stdout + r.stderr)[-1500:]
